@@ -329,6 +329,19 @@ def run(ctx):
         rep.check(info in cr, "C12.R3", "cbor-width-info:%d" % info, "reader handles additional-info %d" % info, "reader lost additional-info %d" % info, site=rl.loc())
     dv = prog.fn(CA + "dec_value")
     ef = prog.fn(CA + "enc_float")
+    # sibling agreement of the INTEGER DOMAIN (round 6, finding F12): the writer's domain is what `cbor_int_parts` maps —
+    # both majors carry a full u64 argument, i.e. [-2^64, 2^64).  The reader must rebuild the value in a type that holds
+    # that whole range; a fallible narrowing of the 128-bit intermediate to a <=64-bit signed primitive rejects encodings
+    # the writer emits (decode(encode(v)) fails for v in [-2^64, -2^63)).
+    cip = prog.fn(CA + "cbor_int_parts")
+    wide = [bi for bi, t in cip.calls() if re.search(r"TryFrom<i128>.* for u64|<u64 as .*TryFrom<i128>>", cip.callee_of(t) or "")]
+    rep.check(len(wide) >= 2, "C12.R3", "int-domain:writer-is-u64-per-major", "cbor_int_parts maps both majors through u64::try_from(i128) (%d sites)" % len(wide),
+              "cbor_int_parts no longer maps both majors through a full u64 argument (%d sites): the writer's integer domain changed, re-derive the reader rule" % len(wide), site=cip.loc())
+    narrow = [(bi, dv.callee_of(t)) for bi, t in dv.calls() if not dv.blocks[bi]["cl"]
+              and re.search(r"TryFrom<(i128|u64|u128)>.* for (i8|i16|i32|i64|isize)\b|<(i8|i16|i32|i64|isize) as .*TryFrom<(i128|u64|u128)>>", dv.callee_of(t) or "")]
+    rep.check(not narrow, "C12.R3", "int-domain:reader-holds-writer-range", "dec_value rebuilds integers without narrowing below the writer's [-2^64, 2^64) domain",
+              "dec_value narrows a decoded integer through %s: encodings of integers in [-2^64, -2^63) that the writer emits are rejected (round trip fails)" % [c for _, c in narrow][:2],
+              site=dv.loc(dv.block_line(narrow[0][0]) if narrow else None))
     for helper in ("is_exact_int", "can_fit_f16", "can_fit_f32"):
         rep.check(bool(dv.call_sites(helper + "$")), "C12.R3", "float-ladder:decoder:%s" % helper, "decoder consults %s" % helper, "decoder no longer consults %s" % helper, site=dv.loc())
     # sibling agreement of the width ladder: the writer picks a width by an inline round-trip equality
